@@ -215,6 +215,60 @@ def check(ctx):
                    f"options are given too ({fmt(e.live)[:100]}): a "
                    f"requested step is silently not applied",
                    key=f"C15.2:{name}:with-others", live=fmt(e.live))
+            # ... and no test of the *data* may skip it while the run goes
+            # on to the export (a refusal that terminates is something
+            # else): "nothing to do for a single trajectory" shortcuts
+            exports = [x for x in step_events["export"] if x.idx > e.idx]
+            args_p = tm.param("args")
+            ref_terms = [tm.sub(ev.data["result"], const(1)) for ev in
+                         res.calls("evo.main_traj.load_trajectories")]
+            for a in tm.atoms(e.live):
+                if a.op == "iter" or any(
+                        x.op == "attr" and x.args[0] is args_p
+                        for x in a.walk()):
+                    continue
+                if any(a is r_ or (a.op == "cmp" and a.args[1] is r_ and
+                                   a.args[2] is tm.NONE) for r_ in ref_terms):
+                    continue      # "a reference was given" (--ref)
+                # a test on which a termination (die / exit / raise) depends
+                # is a refusal of the input, not a silent skip
+                stops = [x for x in res.events if x.idx < e.idx and (
+                    x.kind == "raise" or (x.kind == "call" and (
+                        x.data.get("name") or "").split(".")[-1] in
+                        ("die", "exit", "_exit")))]
+                if any(any(y is a for y in tm.atoms(x.live)) for x in stops):
+                    continue
+                for val in (True, False):
+                    def world(live, a=a, val=val):
+                        outs = []
+                        for kitti in (False, True):
+                            def assign(t, kitti=kitti):
+                                if t is a:
+                                    return val
+                                if t.op == "attr" and t.args[0] is args_p:
+                                    return every.get(t.args[1])
+                                if t.op == "iter":
+                                    return True
+                                if t.op == "cmp" and t.args[1] is \
+                                        _args_attr("subcommand") and \
+                                        tm.is_const(t.args[2], "kitti"):
+                                    return kitti if t.args[0] == "Eq" \
+                                        else not kitti
+                                return None
+                            outs.append(tm.fold(live, assign))
+                        return outs
+                    mine = world(e.live)
+                    skipped = [k for k in (0, 1) if mine[k] is False and any(
+                        world(x.live)[k] is not False for x in exports)]
+                    if skipped:
+                        ctx.ob("C15.2", e, False,
+                               f"`{name}` at {e.where} is skipped when "
+                               f"{fmt(a)[:80]} is {val} although "
+                               f"{'/'.join('--' + o for o in opts)} is given "
+                               f"and the run continues to the export: the "
+                               f"requested step is silently not applied",
+                               key=f"C15.2:{name}:data-skip")
+                        break
     # nothing mutating without options
     for name in OPTION_OF:
         for e in step_events[name]:
@@ -728,11 +782,16 @@ def _step_semantics(ctx):
     """'the exported trajectories equal the inputs processed in the
     documented order' needs each step to do what its name says: left / right
     / propagating transformation (C08.5), down-sampling and motion filtering
-    (C11.1, C11.2), time cropping is not an evo_traj step."""
+    (C11.1, C11.2), association with the inclusive tolerance (C05.2/4/5); time
+    cropping is not an evo_traj step."""
     from ..core import import_rules
     n = import_rules(ctx, "c08", ("C08.5",), "C15.8")
     n += import_rules(ctx, "c11", ("C11.1", "C11.2"), "C15.8")
     ctx.require(n >= 12, "C15.8: step-semantics instances not found")
+    # association to the reference: nearest stamp within the *inclusive*
+    # tolerance --t_max_diff, roles and offset sign kept (C05.2/4/5)
+    n = import_rules(ctx, "c05", ("C05.2", "C05.4", "C05.5"), "C15.8")
+    ctx.require(n >= 4, "C15.8: association instances not found")
 
 
 def _merge_step(ctx):
